@@ -78,6 +78,8 @@ def name_mapper(base_b, other_b, prefix_only=False):
                         return nfc + '__' + p + own_code[fc][1]
                     if rem in full:
                         return nfc + '__' + p + full[rem]
+                    if rem in country:
+                        return nfc + '__' + p + country[rem]
                 else:
                     if ck is not None and rem in market_short.get(ck, {}):
                         return nfc + '__' + p + market_short[ck][rem]
@@ -94,6 +96,7 @@ def name_mapper(base_b, other_b, prefix_only=False):
 
 class C18(object):
     id = 'C18'
+    anchors = ('Model._GenerateFullSectorCodes', 'Model._FitIntoCurrencyZone', 'GL_book_model.__init__', 'HouseholdWithExpectations.__init__', 'FixedMarginBusiness.__init__', 'CurrencyZone.GetSectors')
     title = 'Codes are labels: renaming and embedding leave an economy unchanged'
     rule = ('case kinds: (a) rename - a random model specification is built with the default codes and with an injective '
             'renaming of country, government/treasury/central-bank, household, capitalist, firm, tax-flow, goods-market and '
@@ -120,7 +123,8 @@ class C18(object):
         if m in (3, 4):
             spec = M.gen_spec(rng, n_zones=rng.choice([2, 2, 3]), ext=False, maxtime=rng.randint(3, 4), cross=False)
             return {'kind': 'embed', 'spec': spec, 'unused_ext': rng.random() < 0.5}
-        names = ['SIM', 'SIMEX1', 'PC']
+        # alternate: builders that embed (SIM, SIMEX1) / sets that include PC (listed open finding D11b)
+        names = ['SIM', 'SIMEX1'] if (idx // 6) % 2 == 0 else ['SIM', 'SIMEX1', 'PC', 'PC']
         k = rng.choice([2, 2, 3])
         return {'kind': 'embed_book', 'builders': [rng.choice(names) for _ in range(k)],
                 'unused_ext': rng.random() < 0.5, 'maxtime': rng.randint(3, 6),
